@@ -1,7 +1,8 @@
 ---------------------------- MODULE Switch_Trace ----------------------------
 (* Judges what the real proxy did while the harness forced a schedule of connection
    requests, backend behaviours and kicks on one player.  Lines of one run:
-     {"ev":"reset","cfg":bool,"init":server,"fallbacks":[..]}   player in play on init
+     {"ev":"reset","cfg":bool,"init":server|"none","fallbacks":[..]}   player in play on init ("none": the
+                                            run starts before the player's first connection request)
      {"ev":"call","t":thread,"s":server,"api":"connect"|"indication"}        harness, before the call
      {"ev":"chk","who":thread|"?","s":server,"res":"ok"|"inprogress"|"already"}   hook sw.check (read lock held)
      {"ev":"start","who":..,"s":server}     hook sw.setInFlight with a connection (player lock held)
